@@ -3,6 +3,7 @@ package rules
 
 import (
 	"go/ast"
+	"strings"
 	"go/token"
 	"go/types"
 
@@ -124,7 +125,21 @@ func isNilErrReturn(f *core.Func, n *core.GNode) (nilErr bool, decided bool) {
 	if core.IsNil(f.Pkg.TypesInfo, rs.Results[ei]) {
 		return true, true
 	}
+	if call, ok := core.Unparen(rs.Results[ei]).(*ast.CallExpr); ok && !isErrorConstructor(f.Pkg.TypesInfo, call) {
+		return false, false // forwards the error result of another call: may be nil
+	}
 	return false, true
+}
+
+// isErrorConstructor: the call builds a non-nil error (fmt.Errorf, errors.New, status.Errorf, NewErr...).
+func isErrorConstructor(info *types.Info, call *ast.CallExpr) bool {
+	nm := core.CalleeName(info, call)
+	switch nm {
+	case "fmt.Errorf", "errors.New", "google.golang.org/grpc/status.Errorf", "google.golang.org/grpc/status.Error", "errors.Join":
+		return true
+	}
+	short := nm[strings.LastIndex(nm, ".")+1:]
+	return strings.HasPrefix(short, "NewErr") || strings.HasPrefix(short, "newErr") || strings.HasPrefix(short, "newTxMetaError")
 }
 
 func contains(ss []string, s string) bool {
@@ -150,6 +165,9 @@ func definitelyErrorReturn(g *core.Graph, f *core.Func, rn *core.GNode) bool {
 	info := f.Pkg.TypesInfo
 	e := core.Unparen(rs.Results[ei])
 	if core.IsNil(info, e) {
+		return false
+	}
+	if call, ok := e.(*ast.CallExpr); ok && !isErrorConstructor(info, call) {
 		return false
 	}
 	if o := core.ObjOf(info, e); o != nil {
